@@ -226,7 +226,8 @@ func findBit(bytes []byte, startIndex, endIndex, width int, searchBit, noEnd boo
 	// enforce boundaries
 	if startBit < 0 {
 		startBit = 0
-	} else if startBit > end {
+	}
+	if startBit > end {
 		return -1
 	}
 	if endBit < startBit {
